@@ -97,6 +97,16 @@ func necessaryMatch(t reference.Target, o originInfo, local bool) (bool, string)
 	if !abs && !loc {
 		return false, "address of the declaration does not denote the reference's address"
 	}
+	if loc && !abs && t.LocalAddr[0].String() == "self" && len(t.Addr) >= len(t.LocalAddr)-1 {
+		// self.<rest> stands for <enclosing block>.<rest>: the declaration reached through its
+		// self.* name must be the one whose absolute address ends in the same steps
+		k := len(t.LocalAddr) - 1
+		for i := 0; i < k; i++ {
+			if t.Addr[len(t.Addr)-k+i].String() != t.LocalAddr[1+i].String() {
+				return false, "the declaration reached through its self.* name has an absolute address that names another element (" + t.Addr.String() + " vs " + t.LocalAddr.String() + ")"
+			}
+		}
+	}
 	if len(o.cons) == 0 {
 		return true, ""
 	}
